@@ -1683,15 +1683,55 @@ fn scan_source(path: &str, start: Option<&str>, end: Option<&str>, arm_indent: u
     g
 }
 
+/// command names and the words matched inside each arm, from the shape translator's rows (token based: indifferent to
+/// indentation, line breaks, renamed locals and arms moved into a private helper)
+fn grammar_of_rows(ex: &shape::Extracted) -> SourceGrammar {
+    let mut g = SourceGrammar::default();
+    for f in &ex.families {
+        if let Some(n) = f.get("name") {
+            g.names.insert(n.clone());
+            let e = g.kws.entry(n.clone()).or_default();
+            for w in f.get("subwords").map(|w| w.split(',').filter(|x| !x.is_empty()).map(|x| x.to_string()).collect::<Vec<_>>()).unwrap_or_default() {
+                if is_word(&w) { e.insert(w); }
+            }
+        }
+    }
+    for r in &ex.rows {
+        let name = r.get("name").cloned().unwrap_or_default();
+        let (top, sub) = match name.split_once('.') { Some((a, b)) => (a.to_string(), Some(b.to_string())), None => (name.clone(), None) };
+        g.names.insert(top.clone());
+        let e = g.kws.entry(top).or_default();
+        if let Some(sw) = sub { if is_word(&sw) { e.insert(sw); } }
+        for w in r.get("words").map(|w| w.split(',').filter(|x| !x.is_empty()).map(|x| x.to_string()).collect::<Vec<_>>()).unwrap_or_default() {
+            if is_word(&w) { e.insert(w); }
+        }
+    }
+    g
+}
+
 fn shape_of(name: &str) -> Option<&'static Shape> {
     SHAPES.iter().find(|s| s.name == name)
 }
 
 fn source_enumeration(cx: &mut Ctx) {
     let dir = repo_dir();
-    let sim = scan_source(&format!("{}/src/redis/parser.rs", dir), None, Some("fn extract_string"), 20);
-    let zc = scan_source(&format!("{}/src/redis/commands.rs", dir), None, Some("fn extract_string_zc"), 20);
-    let lua = scan_source(&format!("{}/src/redis/executor/script_ops.rs", dir), Some("fn parse_lua_command_bytes"), Some("fn lua_to_resp"), 12);
+    // names and words come from the token-based shape translator (indifferent to indentation, line breaks, renamed
+    // locals, arms moved into a private helper); the older indentation-based scanner is kept as a debugging aid
+    let read = |rel: &str| std::fs::read_to_string(format!("{}/{}", dir, rel)).unwrap_or_default();
+    let types = shape::field_types(&read("src/redis/command.rs"));
+    let sim = grammar_of_rows(&shape::extract(&read("src/redis/parser.rs"), "from_resp", shape::Style::Resp, &types));
+    let zc = grammar_of_rows(&shape::extract(&read("src/redis/commands.rs"), "from_resp_zero_copy", shape::Style::Resp, &types));
+    let lua = grammar_of_rows(&shape::extract(&read("src/redis/executor/script_ops.rs"), "parse_lua_command_bytes", shape::Style::Lua, &types));
+    if std::env::var("VERIF_C16_DEBUG_SCAN").is_ok() {
+        let o_sim = scan_source(&format!("{}/src/redis/parser.rs", dir), None, Some("fn extract_string"), 20);
+        let o_zc = scan_source(&format!("{}/src/redis/commands.rs", dir), None, Some("fn extract_string_zc"), 20);
+        let o_lua = scan_source(&format!("{}/src/redis/executor/script_ops.rs", dir), Some("fn parse_lua_command_bytes"), Some("fn lua_to_resp"), 12);
+        for (tag, old, new) in [("sim", &o_sim, &sim), ("zc", &o_zc, &zc), ("lua", &o_lua, &lua)] {
+            eprintln!("SCAN {} names equal: {} kws equal: {}", tag, old.names == new.names, old.kws == new.kws);
+            for n in old.names.symmetric_difference(&new.names) { eprintln!("  name {}", n); }
+            for (k, v) in &old.kws { if new.kws.get(k) != Some(v) { eprintln!("  kws {} old {:?} new {:?}", k, v, new.kws.get(k)); } }
+        }
+    }
     if sim.names.len() < 60 || zc.names.len() < 60 || lua.names.len() < 20 {
         cx.out.violation("C16:coverage:source-scan-failed", "the match arms of the three grammars could not be enumerated from the source (layout changed?): the coverage of command names is no longer derived from the source",
             json!({"repo": dir, "from_resp_arms": sim.names.len(), "zero_copy_arms": zc.names.len(), "translator_arms": lua.names.len()}));
@@ -1841,6 +1881,13 @@ fn shape_check(cx: &mut Ctx) {
     const FIELDS: &[&str] = &["arity", "aerr", "ctor", "slots", "opt", "tail", "opts", "unk", "flits", "checks"];
     let by_name = |rows: &[shape::Row]| -> BTreeMap<String, shape::Row> { rows.iter().map(|r| (r.get("name").cloned().unwrap_or_default(), r.clone())).collect() };
     let mut unrecognised: BTreeSet<String> = BTreeSet::new();
+    // the construct the translator could not read, per command (named in the report)
+    let mut construct: BTreeMap<String, String> = BTreeMap::new();
+    for (g, ex) in [("from_resp", &sim), ("from_resp_zero_copy", &zc), ("parse_lua_command_bytes", &lua)] {
+        for r in &ex.rows {
+            if let (Some(n), Some(w)) = (r.get("name"), r.get("why")) { construct.entry(n.clone()).or_default().push_str(&format!("[{}] {} ", g, w)); }
+        }
+    }
     let mut compared = 0u64;
     // (i) the two RESP parsers, every field (also the source-only ones: all literals, compared words, conditions)
     let (a, b) = (by_name(&sim.rows), by_name(&zc.rows));
@@ -1848,6 +1895,7 @@ fn shape_check(cx: &mut Ctx) {
         match (a.get(n), b.get(n)) {
             (Some(x), Some(y)) => {
                 for (f, vx) in x {
+                    if f == "why" { continue; }
                     let vy = y.get(f).cloned().unwrap_or_default();
                     if (vx.contains('?') || vy.contains('?')) && FIELDS.contains(&f.as_str()) {
                         unrecognised.insert(format!("parsers:{}:{}", n, f));
@@ -1954,8 +2002,10 @@ fn shape_check(cx: &mut Ctx) {
     const REVIEWED_UNRECOGNISED: &[&str] = &[];
     for u in &unrecognised {
         if !REVIEWED_UNRECOGNISED.contains(&u.as_str()) {
-            cx.out.violation(&format!("C16:source:shape-not-recognised:{}", u), "pattern not recognised: the match arm of this command is written in a form the shape translator does not read, so this field of its descriptor is no longer compared with the other parser / the model's shape table (review the arm, then extend the translator or the reviewed list)",
-                json!({"field": u, "reviewed_list": REVIEWED_UNRECOGNISED}));
+            let cmd = u.split(':').nth(1).unwrap_or("");
+            let why = construct.get(cmd).cloned().unwrap_or_else(|| "(no detail recorded)".to_string());
+            cx.out.violation(&format!("C16:source:shape-not-recognised:{}", u), &format!("pattern not recognised: the match arm of this command is written in a form the shape translator does not read, so this field of its descriptor is no longer compared with the other parser / the model's shape table (review the arm, then extend the translator or the reviewed list). Construct: {}", why),
+                json!({"field": u, "construct": why, "reviewed_list": REVIEWED_UNRECOGNISED}));
         }
     }
     cx.out.count_n("shape:fields-compared", compared);
@@ -1965,6 +2015,7 @@ fn shape_check(cx: &mut Ctx) {
         "model_rows": {"resp": model["R"].len(), "lua": model["L"].len(), "families": model["F"].len()},
         "fields_compared": compared,
         "unrecognised": unrecognised,
+        "read_through": {"from_resp": sim.notes, "from_resp_zero_copy": zc.notes, "parse_lua_command_bytes": lua.notes},
         "sample_rows": {"SET": a.get("SET"), "lua:ZADD": by_name(&lua.rows).get("ZADD"), "ACL.LOG": a.get("ACL.LOG")},
     }));
 }
